@@ -193,6 +193,23 @@ impl Property for C07 {
                 sc.expect = serde_json::json!({"same_len_pair": true});
             }
         }
+        // the same text again with other arguments: a result cached by text (or by path) alone would be stale
+        if rng.chance(1, 3) {
+            let mut again = rng.pick(&calls).clone();
+            match rng.below(5) {
+                0 => again.defines = gen::define_table(&mut rng),
+                1 => again.defines.clear(),
+                2 => again.strip_comments = !again.strip_comments,
+                3 => again.allow_incomplete = !again.allow_incomplete,
+                _ => {
+                    again.include_paths.reverse();
+                    again.ignore_include = !again.ignore_include;
+                }
+            }
+            again.hash_seed = rng.next();
+            calls.push(again.clone());
+            ops.push(Op::Call(again));
+        }
         // repeat an earlier call (possibly the polluted-state-sensitive probe in the slot of another)
         let mut last = rng.pick(&calls).clone();
         if rng.chance(1, 3) && last.text.is_some() {
